@@ -663,7 +663,7 @@ class ConvolutionCollectionK(ConvolutionCollection):
             atco_inp = self.atco_out
             atco_out = self.atco_inp
         if output is None:
-            output = np.zeros((atco_inp.nao, self.nalpha))
+            output = np.zeros((atco_out.nao, self.nalpha))
         if not self._integrals_initialized:
             raise RuntimeError("Must initialize integrals before calling")
         assert input.flags.c_contiguous
